@@ -25,7 +25,7 @@ CLAIMED = {
     "C14": ("E1+E2", "Kani on is_true; MIR symbolic execution (z3+cvc5) of Operator::eval, BinOp::eval and the unary-not arm",
             "bounded model checking: truthiness table over every value kind; and/or operand selection by identity and short-circuit "
             "evaluation order for every operand kind; the `not` arm (known finding for non-boolean operands)"),
-    "C17": ("E1", "Kani/CBMC bounded model checking of the real ValueRange",
+    "C17": ("E1+E2", "Kani/CBMC bounded model checking of the real ValueRange; MIR symbolic execution of SrcRange::evaluate",
             "bounded model checking (@for scope): the visited sequence for all from,to in [-6,6] and the iteration count at the i64 limits"),
     "C26": ("E2", "symbolic execution of the closures' MIR, obligations decided by z3 and cvc5",
             "bounded model checking (index scope): slice/insert index arithmetic for ALL i64 indices and every length up to 2^32"),
